@@ -295,6 +295,9 @@ impl Hist {
                 self.w.arm(None);
                 if r.is_ok() { "ok".into() } else { "err".into() }
             }
+            // `tfq off|on`: the token factory's QUERIES stop / resume answering (a query path dropped from the contract
+            // whitelist); its messages keep working and charging.  While off, a pool cannot be created: the fee due is unknown.
+            "tfq" => { let off = t.s() == "off"; self.w.tf_queries_off.set(off); "ok".into() }
             "advance" => { let ns = t.u64(); self.w.advance(ns); "ok".into() }
             "fault" => { self.pending_fault = Some(t.u64()); "ok".into() }
             // (a contract query that panics must not take the harness down: the snapshot then differs from the model's)
